@@ -294,10 +294,14 @@ func (vf *VerifyFunc) unop(st *State, fr *Frame, x *ssa.UnOp) *Val {
 		return &Val{T: t, S: SInt, Tm: "(- (- " + a.Tm + ") 1)"}
 	case token.ARROW:
 		vf.chanOp(st, fr, a, "recv", x)
+		vf.ctxDoneRecv(st, a, "true")
 		if x.CommaOk {
 			tt := t.(*types.Tuple)
-			return &Val{T: t, Fs: []*Val{st.freshVal(tt.At(0).Type(), "recv"), st.freshVal(tt.At(1).Type(), "recvok")}}
+			rv, ok := st.freshVal(tt.At(0).Type(), "recv"), st.freshVal(tt.At(1).Type(), "recvok")
+			vf.chanInvRecv(st, fr, a, rv, ok.Tm)
+			return &Val{T: t, Fs: []*Val{rv, ok}}
 		}
+		// without the comma-ok form a closed channel yields the zero value: nothing can be assumed about it
 		return st.freshVal(t, "recv")
 	}
 	return st.freshVal(t, "unop")
@@ -794,6 +798,87 @@ func (vf *VerifyFunc) chanOp(st *State, fr *Frame, ch *Val, op string, in ssa.In
 	}
 }
 
+// ctxDoneRecv: a receive from ctx.Done() that went through (under cond) means the context is done from now on
+// (ghost field ctxDone, read by the contract of (context.Context).Err).
+func (vf *VerifyFunc) ctxDoneRecv(st *State, ch *Val, cond string) {
+	if ch.DoneOf == "" {
+		return
+	}
+	g, ok := vf.eng.cs.Ghosts["ctxDone"]
+	if !ok || !g.Field {
+		return
+	}
+	key, as := "G:ctxDone", ghostFieldSort(g)
+	old := st.heapGet(key, as)
+	nw := store(old, ch.DoneOf, "true")
+	if cond != "true" {
+		nw = "(ite " + cond + " " + nw + " " + old + ")"
+	}
+	st.heapSet(key, as, nw)
+}
+
+// chanVarVal: the channel currently held by the local (or captured) variable `name`, nil when it has no value here.
+func (vf *VerifyFunc) chanVarVal(st *State, fr *Frame, name string) *Val {
+	ev := &evaluator{st: st, vf: vf, env: vf.loopEnv(fr), own: false}
+	if vf.fc != nil {
+		ev.pkgPath = vf.fc.PkgPath
+	}
+	v := ev.lookupIdent(name)
+	if v == nil || v.S != SInt {
+		return nil
+	}
+	if _, ok := v.T.Underlying().(*types.Chan); !ok {
+		return nil
+	}
+	return v
+}
+
+// sameChanType: a channel of another element type cannot be the channel under invariant.
+func sameChanType(a, b *Val) bool {
+	ca, ok1 := a.T.Underlying().(*types.Chan)
+	cb, ok2 := b.T.Underlying().(*types.Chan)
+	return ok1 && ok2 && types.Identical(ca.Elem(), cb.Elem())
+}
+
+// chanInvSend: obligation `ch == <var> ==> inv[elem := v]` for every channel invariant of the function under contract.
+func (vf *VerifyFunc) chanInvSend(st *State, fr *Frame, ch, v *Val, in ssa.Instruction, where string) {
+	if vf.fc == nil || len(st.frames) != 1 {
+		return
+	}
+	for _, c := range vf.fc.ChanInvs {
+		cv := vf.chanVarVal(st, fr, c.CallName)
+		if cv == nil || !sameChanType(cv, ch) {
+			continue
+		}
+		env := vf.loopEnv(fr)
+		env["elem"] = v
+		t := vf.evalClause(st, c, env, nil)
+		l := c.Label
+		if l == "" {
+			l = c.CallName
+		}
+		st.check("chaninv", l+"/"+where, c.Prop, "value sent on "+c.CallName+" satisfies: "+c.Src, st.pos(in), "(=> (= "+ch.Tm+" "+cv.Tm+") "+t+")")
+	}
+}
+
+// chanInvRecv: a value received from the channel held by <var> (while it was open) satisfies the invariant.
+func (vf *VerifyFunc) chanInvRecv(st *State, fr *Frame, ch, rv *Val, okTm string) {
+	if vf.fc == nil || len(st.frames) != 1 {
+		return
+	}
+	for _, c := range vf.fc.ChanInvs {
+		cv := vf.chanVarVal(st, fr, c.CallName)
+		if cv == nil || !sameChanType(cv, ch) {
+			continue
+		}
+		env := vf.loopEnv(fr)
+		env["elem"] = rv
+		t := vf.evalClause(st, c, env, nil)
+		st.assume("(=> (and (= " + ch.Tm + " " + cv.Tm + ") " + okTm + ") " + t + ")")
+		vf.notes["channel invariant of "+c.CallName+" assumed at a receive (objects sent are taken not to change between send and receive)"]++
+	}
+}
+
 func (vf *VerifyFunc) selectOp(st *State, fr *Frame, x *ssa.Select) *Val {
 	tt := x.Type().(*types.Tuple)
 	idx := st.fresh("sel_idx", SInt)
@@ -819,6 +904,22 @@ func (vf *VerifyFunc) selectOp(st *State, fr *Frame, x *ssa.Select) *Val {
 	fs := []*Val{{T: tt.At(0).Type(), S: SInt, Tm: idx}, st.freshVal(tt.At(1).Type(), "sel_ok")}
 	for i := 2; i < tt.Len(); i++ {
 		fs = append(fs, st.freshVal(tt.At(i).Type(), "sel_recv"))
+	}
+	// channel invariants: sends in the select are checked, receives (when this state was chosen and the channel was open) assume
+	ri := 2
+	for si, s := range x.States {
+		ch := st.get(fr, s.Chan)
+		if s.Dir != types.SendOnly {
+			vf.ctxDoneRecv(st, ch, "(= "+idx+" "+fmt.Sprint(si)+")")
+		}
+		if s.Dir == types.SendOnly {
+			vf.chanInvSend(st, fr, ch, st.get(fr, s.Send), x, fmt.Sprintf("select#%d.%d", vf.eng.info(fr.fn).chanOrd[x], si))
+			continue
+		}
+		if ri < len(fs) {
+			vf.chanInvRecv(st, fr, ch, fs[ri], "(and (= "+idx+" "+fmt.Sprint(si)+") "+fs[1].Tm+")")
+			ri++
+		}
 	}
 	return &Val{T: x.Type(), Fs: fs}
 }
